@@ -27,9 +27,12 @@ type devRun struct {
 	timedOut bool
 }
 
-func runDeviant(bin, id string, parallel, procs int) devRun {
+func runDeviant(bin, id string, parallel, procs int, tz ...string) devRun {
 	cmd := osexec.Command(bin, "-test.run", "^TestConformance$", "-test.timeout", "60s", "-test.parallel", fmt.Sprint(parallel), "-test.count", "1")
 	cmd.Env = append(os.Environ(), "VERIF_DEVIANT="+id, fmt.Sprintf("GOMAXPROCS=%d", procs))
+	if len(tz) > 0 && tz[0] != "" {
+		cmd.Env = append(cmd.Env, "TZ="+tz[0])
+	}
 	out, err := cmd.CombinedOutput()
 	r := devRun{id: id, parallel: parallel, procs: procs}
 	if err != nil {
@@ -88,19 +91,27 @@ func c20Custom(d *driver) int {
 	if d.tier == "thorough" {
 		procsList, reps = []int{1, 2, 4, 16}, 5
 	}
-	refs := []string{"ref:mem", "ref:os", "ref:wrapper", "ref:prefixed-paths@prefix"}
+	refs := []string{"ref:mem", "ref:os", "ref:wrapper", "ref:prefixed-paths@prefix", "ref:utc-modtime"}
 	type job struct {
 		id       string
 		parallel int
 		procs    int
 		rep      int
+		tz       string
 	}
 	var jobs []job
 	for _, id := range append(append([]string{}, refs...), ids...) {
 		for _, p := range []int{1, 16} {
 			for _, procs := range procsList {
 				for rep := 0; rep < reps; rep++ {
-					jobs = append(jobs, job{id, p, procs, rep})
+					jobs = append(jobs, job{id, p, procs, rep, ""})
+				}
+				if strings.HasPrefix(id, "ref:") {
+					// the references also under two time zones of the process running the suite: the verdict depends on
+					// the file system alone
+					for _, tz := range []string{"UTC", "Asia/Kolkata"} {
+						jobs = append(jobs, job{id, p, procs, 0, tz})
+					}
 				}
 			}
 		}
@@ -114,7 +125,7 @@ func c20Custom(d *driver) int {
 			defer wg.Done()
 			sem <- struct{}{}
 			defer func() { <-sem }()
-			results[i] = runDeviant(bin, j.id, j.parallel, j.procs)
+			results[i] = runDeviant(bin, j.id, j.parallel, j.procs, j.tz)
 			results[i].rep = j.rep
 		}(i, j)
 	}
@@ -219,7 +230,7 @@ func c20Custom(d *driver) int {
 	if len(lines) > 0 {
 		return 1
 	}
-	fmt.Printf("OK property=C20 tier=%s deviants=%d rejected=%d references=4 suite_runs=%d wall=%.1fs\n", d.tier, len(ids), rejected, len(jobs), time.Since(d.start).Seconds())
+	fmt.Printf("OK property=C20 tier=%s deviants=%d rejected=%d references=5 suite_runs=%d wall=%.1fs\n", d.tier, len(ids), rejected, len(jobs), time.Since(d.start).Seconds())
 	return 0
 }
 
